@@ -362,7 +362,7 @@ func checkC19(P *Prog, r *Result) {
 	// otherwise defaults, coerced values and transform results are written into the caller's data
 	shareRule(P, r, checkC03, "C03/pointer-alloc", nil, "C19/dest-not-aliased-to-input", 1)
 	// a map handed in with an option is read, not adopted: the execution writes only into maps it made (C07's rule)
-	shareRule(P, r, checkC07, "C07/pooled-map-owned", nil, "C19/option-maps-not-adopted", 2)
+	shareRule(P, r, checkC07, "C07/pooled-map-owned", nil, "C19/option-maps-not-adopted", 0)
 	// values captured by a test closure (a OneOf list, the wanted values of a ContainsAll) belong to the schema: an
 	// execution that writes through a captured variable changes what the next execution tests (C08's write-effects rule,
 	// which classifies closure-capture roots)
